@@ -7,54 +7,54 @@ package truthsocial
 // document / body position.
 //@ func IsAccountLookupURL
 //@   property C10
-//@   sweep idx slice div assert
+//@   sweep idx slice div assert extnil
 //@   opaque
 //@   modifies models.URL::*!Hops!Redirects
 //@ func IsAccountURL
 //@   property C10
-//@   sweep idx slice div assert
+//@   sweep idx slice div assert extnil
 //@   opaque
 //@   modifies models.URL::*!Hops!Redirects
 //@ func GenerateAccountLookupURL
 //@   property C10
-//@   sweep idx slice div assert
+//@   sweep idx slice div assert extnil
 //@   opaque
 //@   modifies models.URL::*!Hops!Redirects
 //@   ensures [fresh-urls] freshslice(result0) && forall(j, 0, len(result0), result0[j] == nil || fresh(result0[j])) // assumed: the extractor builds a new list of new URL objects, it never hands back the page's own URL object
 //@ func GenerateOutlinksURLsFromLookup
 //@   property C10
-//@   sweep idx slice div assert
+//@   sweep idx slice div assert extnil
 //@   opaque
 //@   modifies models.URL::*!Hops!Redirects
 //@   ensures [fresh-urls] freshslice(result0) && forall(j, 0, len(result0), result0[j] == nil || fresh(result0[j])) // assumed: the extractor builds a new list of new URL objects, it never hands back the page's own URL object
 //@ func IsPostURL
 //@   property C10
-//@   sweep idx slice div assert
+//@   sweep idx slice div assert extnil
 //@   opaque
 //@   modifies models.URL::*!Hops!Redirects
 //@ func GeneratePostAssetsURLs
 //@   property C10
-//@   sweep idx slice div assert
+//@   sweep idx slice div assert extnil
 //@   opaque
 //@   modifies models.URL::*!Hops!Redirects
 //@ func IsStatusesURL
 //@   property C10
-//@   sweep idx slice div assert
+//@   sweep idx slice div assert extnil
 //@   opaque
 //@   modifies models.URL::*!Hops!Redirects
 //@ func GenerateVideoURLsFromStatusesAPI
 //@   property C10
-//@   sweep idx slice div assert
+//@   sweep idx slice div assert extnil
 //@   opaque
 //@   modifies models.URL::*!Hops!Redirects
 //@ func NeedExtraction
 //@   property C10
-//@   sweep idx slice div assert
+//@   sweep idx slice div assert extnil
 //@   opaque
 //@   modifies models.URL::*!Hops!Redirects
 //@ func ExtractAssets
 //@   property C10
-//@   sweep idx slice div assert
+//@   sweep idx slice div assert extnil
 //@   opaque
 //@   modifies models.URL::*!Hops!Redirects
 //@   ensures forall(a, 0, len(result0), forall(b, 0, len(result1), result0[a] == nil || result0[a] != result1[b])) && forall(b, 0, len(result1), result1[b] == nil || fresh(result1[b]))
